@@ -108,7 +108,7 @@ func genAppMessage(t *rapid.T, s *sim, useDict bool, id string) (*quickfix.Messa
 		if err != nil {
 			t.Fatalf("harness: %v", err)
 		}
-		items := sp.GenMembers(rapidChooser{t}, members, specxml.GenOpts{OptionalOneIn: rapid.SampledFrom([]int{3, 6}).Draw(t, "opt"), MaxEntries: 3, MaxDepth: 2}, 0, false)
+		items := sp.GenMembers(rapidChooser{t}, members, specxml.GenOpts{OptionalOneIn: rapid.SampledFrom([]int{3, 6}).Draw(t, "opt"), MaxEntries: 3, MaxDepth: 2, EmptyOneIn: rapid.SampledFrom([]int{0, 0, 3}).Draw(t, "empty-groups")}, 0, false)
 		m.Header.SetString(35, md.MsgType)
 		maxTag, maxIsGroup := 0, false
 		for _, it := range items {
@@ -625,6 +625,29 @@ func TestReplay_C03_Fixed(t *testing.T) {
 			if len(outs) != 1 || outs[0].MsgType != "4" || fixwire.GetS(outs[0].Fields, 36) != "4" || fixwire.GetS(outs[0].Fields, 34) != rng[0] {
 				vk.Violation(t, c, "C03/coverage-ends-early-or-late/persist=true/dict=false", "ResendRequest(%s,%s) over a history with a hole at 3 must be answered by one gap fill %s -> 4\n%s", rng[0], rng[1], rng[0], s.history())
 			}
+		}
+	})
+	vk.Guard(func() {
+		// (4) dictionary configured, the body's last field is a group written with zero entries
+		// (453=0): the replayed body still ends with it (defect repaired by /repo a75f66a)
+		cfg := simCfg{begin: "FIX.4.4", hb: 30, store: "memory", settings: map[string]string{config.DataDictionary: storekit.RepoDir() + "/spec/FIX44.xml"}}
+		s := newSim(t, c, cfg)
+		defer s.close()
+		if !s.logon(0) {
+			t.Fatalf("harness: logon failed")
+		}
+		m := quickfix.NewMessage()
+		m.Header.SetString(35, "D")
+		m.Body.SetString(11, "id1").SetString(55, "IBM").SetString(54, "1").SetString(60, "20240102-03:04:05").SetString(40, "1")
+		m.Body.SetGroup(quickfix.NewRepeatingGroup(453, quickfix.GroupTemplate{quickfix.GroupElement(448), quickfix.GroupElement(447), quickfix.GroupElement(452)}))
+		if _, err := s.r.Send(m); err != nil {
+			t.Fatalf("harness: %v", err)
+		}
+		s.r.Flush()
+		st := s.r.In(s.p.Frame("2", s.r.T(), []fixwire.Field{fixwire.F(7, "2"), fixwire.F(16, "0")}, peer.Opt{}))
+		outs := s.r.Outs(st)
+		if len(outs) != 1 || fixwire.GetS(outs[0].Fields, 453) != "0" {
+			vk.Violation(t, c, "C03/body-differs/persist=true/dict=true/ends-with-group", "the replay of a message whose body ends with 453=0 lost that field\n%s", s.history())
 		}
 	})
 }
